@@ -320,6 +320,8 @@ void error (const char *fmt, ...) {
 
   va_start (args, fmt);
   len = vsnprintf (msg, sizeof(msg)-1, fmt, args);
+  if (len > (int)sizeof(msg) - 2)
+    len = (int)sizeof(msg) - 2; /* truncated: vsnprintf returns the length the full text would have had */
   if (len > 0 && msg[len-1] != '\n')
     {
       msg[len] = '\n';
